@@ -500,6 +500,10 @@ func (s *scope) lookupName(name unistring.String) (binding *binding, noDynamics 
 			}
 			curScope.argsNeeded = true
 			binding, _ = curScope.bindName(name)
+			if toStash && !binding.inStash {
+				// referenced from a nested (arrow) function: must live in the stash like any other captured binding
+				binding.moveToStash()
+			}
 			return
 		}
 		if curScope.isFunction() {
